@@ -59,6 +59,16 @@ class C01(PureCheck):
                 if any(c[0] == "\x1b" for c in combo) and any(c[0] != "\x1b" for c in combo):
                     k += 1
                     yield {"runs": [], "raw": enc.enc_text("".join(combo)), "via": k % 2}
+        # texts spelled like a fragment of the very escape sequence that will wrap them ("31" in red, "1m" in bold, "[44"
+        # on blue): rendered first, then cut - head and tail - and rendered again
+        for text, a in (("31", [2, 0, 0, 0, 0, 0, 0, 0]), ("[3", [2, 0, 0, 0, 0, 0, 0, 0]), ("1m", [0, 0, 2, 0, 0, 0, 0, 0]),
+                        ("[1", [0, 0, 2, 0, 0, 0, 0, 0]), ("44", [0, 5, 0, 0, 0, 0, 0, 0]), ("[44", [0, 5, 0, 0, 0, 0, 0, 0]),
+                        ("4m", [0, 0, 0, 0, 0, 2, 0, 0]), ("\x5b4m", [0, 0, 0, 0, 0, 2, 0, 0]), ("31m", [2, 0, 2, 0, 0, 0, 0, 0]),
+                        ("36", [7, 0, 0, 0, 0, 0, 0, 0]), ("7m", [0, 0, 0, 0, 0, 0, 0, 2]), ("[0m", [0, 0, 2, 0, 0, 0, 0, 0])):
+            for d in ("slice", "slice_tail", "splice", "add"):
+                for rf in (1, 0):
+                    yield {"runs": [[enc.enc_text(text), list(a)]], "derive": d, "render_first": rf}
+                    yield {"runs": [[enc.enc_text(text), list(a)], [[120], [0] * 8]], "derive": d, "render_first": rf}
         # runs that hold nothing but blanks (space, newline, tab, ideographic / no-break space): every single attribute
         # alone, and the foreground colour with each other attribute - alone and between two visible runs
         for t in (" ", "  ", "\n", "\t ", "\u3000", "\xa0", " \n "):
@@ -138,6 +148,8 @@ class C01(PureCheck):
                 f = f.rjust(len(f)) if f.chunks else f
             elif d == "slice":
                 f = f[0:max(1, len(f) - 1)]
+            elif d == "slice_tail":
+                f = f[1:]
             elif d == "splice":
                 f = f.splice("Z", min(1, len(f)), min(2, len(f)))
             elif d == "add":
